@@ -5,15 +5,21 @@ import (
 	"bytes"
 	"context"
 	"fmt"
+	"io"
 	"os"
 	"path/filepath"
 	"runtime"
+	"sync"
 	"testing"
+	"time"
 
 	"verif/harness/h"
 
+	"github.com/itchio/lake"
 	"github.com/itchio/lake/pools/fspool"
+	"github.com/itchio/lake/tlc"
 	"github.com/itchio/wharf/pwr"
+	"github.com/itchio/wharf/wsync"
 	"pgregory.net/rapid"
 )
 
@@ -24,16 +30,92 @@ type Spec struct {
 	Parts  int    `json:"parts"`
 	Force  bool   `json:"force,omitempty"`
 	Runs   int    `json:"runs"`
+	// Abort: after the reference run, a diff of the same pair is cancelled while one of its source reads is
+	// stalled; the stalled read is released while the next measured run is under way. A diff that was given
+	// up must not influence the ones that follow it in the same process.
+	Abort bool `json:"abort,omitempty"`
 }
 
 type jitterWriter struct {
-	buf bytes.Buffer
-	j   *h.Jitter
+	buf          bytes.Buffer
+	j            *h.Jitter
+	onFirstWrite func()
 }
 
 func (w *jitterWriter) Write(p []byte) (int, error) {
+	if w.onFirstWrite != nil {
+		w.onFirstWrite()
+		w.onFirstWrite = nil
+	}
 	w.j.Pause(w.j.Next())
 	return w.buf.Write(p)
+}
+
+// stallPool's readers block in their second Read until released.
+type stallPool struct {
+	lake.Pool
+	blocked chan struct{}
+	gate    chan struct{}
+	once    sync.Once
+}
+
+type stallReader struct {
+	r io.Reader
+	p *stallPool
+	n int
+}
+
+func (sr *stallReader) Read(b []byte) (int, error) {
+	sr.n++
+	if sr.n == 2 {
+		sr.p.once.Do(func() { close(sr.p.blocked) })
+		<-sr.p.gate
+	}
+	return sr.r.Read(b)
+}
+
+func (p *stallPool) GetReader(i int64) (io.Reader, error) {
+	r, err := p.Pool.GetReader(i)
+	if err != nil {
+		return nil, err
+	}
+	return &stallReader{r: r, p: p}, nil
+}
+
+// abortedDiff starts a diff of the pair, cancels it while a source read is stalled and waits for WritePatch to
+// return. It returns the function that releases the stalled read (nil if the diff never stalled or did not
+// return within 5 s, in which case nothing is judged).
+func abortedDiff(s Spec, sc, tc *tlc.Container, th []wsync.BlockHash, nd string) func() {
+	sp := &stallPool{Pool: fspool.New(sc, nd), blocked: make(chan struct{}), gate: make(chan struct{})}
+	var once sync.Once
+	release := func() { once.Do(func() { close(sp.gate) }) }
+	dctx := &pwr.DiffContext{Compression: s.Comp.Settings(), Consumer: h.Quiet(), SourceContainer: sc, Pool: sp, TargetContainer: tc, TargetSignature: th}
+	ctx, cancel := context.WithCancel(context.Background())
+	defer cancel()
+	done := make(chan struct{})
+	go func() {
+		dctx.WritePatch(ctx, io.Discard, io.Discard)
+		close(done)
+	}()
+	select {
+	case <-sp.blocked:
+	case <-done:
+		release()
+		return nil // no file needed a second read
+	case <-time.After(5 * time.Second):
+		release()
+		<-done
+		return nil
+	}
+	cancel()
+	select {
+	case <-done:
+		return release
+	case <-time.After(5 * time.Second):
+		release()
+		<-done
+		return nil
+	}
 }
 
 func check(s Spec) h.Result {
@@ -61,6 +143,7 @@ func check(s Spec) h.Result {
 	}
 	procs := []int{1, 2, 3, 16}
 	var p0, s0 []byte
+	var release func()
 	cl := []string{"comp:" + []string{"none", "brotli", "gzip"}[s.Comp.Algo]}
 	big := 0
 	for _, e := range s.Pair.New {
@@ -80,11 +163,24 @@ func check(s Spec) h.Result {
 			TargetContainer: tc, TargetSignature: th,
 		}
 		pw, sw := &jitterWriter{j: j}, &jitterWriter{j: j}
+		if i == 1 && release != nil {
+			// let the given-up diff's stalled read complete while this run is writing
+			pw.onFirstWrite = release
+		}
 		if err := dctx.WritePatch(context.Background(), pw, sw); err != nil {
 			return h.Result{Fail: fmt.Sprintf("WritePatch run %d (GOMAXPROCS %d): %v", i, procs[i%len(procs)], err), Classes: cl}
 		}
+		if i == 1 && release != nil {
+			release()
+		}
 		if i == 0 {
 			p0, s0 = pw.buf.Bytes(), sw.buf.Bytes()
+			if s.Abort {
+				release = abortedDiff(s, sc, tc, th, nd)
+				if release != nil {
+					cl = append(cl, "history:a-cancelled-diff-before")
+				}
+			}
 			continue
 		}
 		if !bytes.Equal(p0, pw.buf.Bytes()) {
@@ -230,6 +326,7 @@ var prop = h.Prop[Spec]{
 		s.Jitter = rapid.SliceOfN(rapid.Byte(), 1, 24).Draw(t, "jitter")
 		s.Parts = rapid.IntRange(0, 4).Draw(t, "partitions")
 		s.Force = rapid.IntRange(0, 3).Draw(t, "force") == 0
+		s.Abort = rapid.IntRange(0, 2).Draw(t, "cancelled-diff-first") == 0
 		return s
 	},
 	Check: check,
